@@ -68,6 +68,13 @@ struct Plan {
     prefix: String,
     initial: Vec<(u64, u32)>,
     sessions: Vec<Session>,
+    /// bytes of pending cursor inserts that trigger a splice (0 = redb's 1 MiB); lowered so that
+    /// insert runs are spliced in the middle of a run (hook verif_knobs)
+    #[serde(default)]
+    insert_flush: u32,
+    /// pages per freed-page record (0 = redb's 400)
+    #[serde(default)]
+    freed_chunk: u32,
 }
 
 #[derive(Clone, Debug, Serialize, Deserialize, PartialEq)]
@@ -352,6 +359,9 @@ const UDEF: TableDefinition<u64, &[u8]> = TableDefinition::new("t");
 const SDEF: TableDefinition<&str, &[u8]> = TableDefinition::new("t");
 
 fn builder(p: &Plan) -> redb::Builder {
+    // thread-local knobs: a run lives on one worker thread
+    redb::verif_knobs::set_insert_flush_bytes(p.insert_flush as usize);
+    redb::verif_knobs::set_freed_pages_chunk_size(p.freed_chunk as usize);
     let mut b = Database::builder();
     b.verif_set_page_size(p.page_size as usize);
     if let Some(rp) = p.region_pages {
@@ -686,7 +696,10 @@ fn draw(seed: u64, run: u64) -> Plan {
         1 => "shared/prefix/".to_string(),
         _ => "p".repeat(r.range(1, 50) as usize),
     };
-    Plan { page_size, region_pages, cache, str_keys: r.chance(1, 2), prefix, initial, sessions }
+    let str_keys = r.chance(1, 2);
+    let insert_flush = *r.pick(&[0u32, 0, 1, 64, 300, 2000, 20000]);
+    let freed_chunk = *r.pick(&[0u32, 0, 0, 2, 5]);
+    Plan { page_size, region_pages, cache, str_keys, prefix, initial, sessions, insert_flush, freed_chunk }
 }
 
 #[derive(Serialize, Deserialize)]
